@@ -82,10 +82,11 @@ pub fn run(ctx: &mut Ctx) {
     let n = if ctx.quick() { 3000 } else { 250000 };
     for k in 0..n {
         let key: [u8; 40] = rng.arr();
-        let len = if k % 10 == 0 { rng.range(0, 20000) } else { rng.range(0, 600) } as usize;
+        let len = if k % 50 == 7 { rng.range(65_530, 140_000) } else if k % 10 == 0 { rng.range(0, 20000) } else { rng.range(0, 600) } as usize;
         let data = rng.bytes(len);
         let typed = k % 2 == 1;
-        let s1 = if k % 4 == 1 { rng.header_partition(len) } else { rng.partition(len) };
+        // calls longer than 2^16 bytes in one piece (a length held in a u16 would wrap)
+        let s1 = if k % 50 == 7 { let cut = rng.range(0, 3) as usize; if cut == 0 { vec![len] } else { vec![cut, len - cut] } } else if k % 4 == 1 { rng.header_partition(len) } else { rng.partition(len) };
         let s2 = if k % 8 == 3 { rng.header_partition(len) } else { rng.partition(len) };
         let use_facade = k % 3 == 0;
         let r = catch(|| {
